@@ -27,6 +27,10 @@ CHECKS = {
             "All pairs/triples of lists up to length 3 (thorough 4) over 3 symbols plus nil and all 81x81 pairs of key->stream maps (<=2 keys, streams <=2, nil and empty streams) plus PRNG operands: membership / no-duplicate / order laws for non-empty operands through slices, Stream, MapSet and StreamSet, and every generic function or method against its interface{} twin for all operands incl. nil/empty.",
             "Trusted: the finite-set model (has/noDup/order predicates) and the normalisation used to compare twins (values that differ by design are ignored).",
             "DESIGN.md section 5, C05"),
+    "C04": ("exploration", "program-level reference-model monitor with pointer-identity handles; all live collections re-read after every step",
+            "Every program of depth <= 2 (thorough 3) over the full Stream/Set/StreamSet operation table from a grid of initial collections, for both API families, plus tens of thousands of PRNG programs of length 10-24 over mixed handles; after each step every live handle is re-read through the public API and compared with an immutable model, and ToArray's result is overwritten to test detachment.",
+            "Trusted: the pure model of each operation (degenerate StreamSet cases pinned to the code's guards, DESIGN.md C04); pointer identity as handle identity.",
+            "DESIGN.md section 5, C04"),
 }
 
 NOT_YET = "check not built yet in this session (runtime monitoring applies; see DESIGN.md section 5)"
